@@ -2,7 +2,13 @@
 For every wrapper class with a triangle template parameter (Uplo / UploA / UploB): which triangle argument is handed to which
 triangle-sensitive Eigen member type (LLT, SimplicialLLT, ConjugateGradient, ...), view (`selfadjointView<>`, `triangularView<>`)
 and factorization call (`compute(mat, uplo, ...)`).  A dropped or swapped `Uplo` changes the generated table and breaks
-`c11_uplo_passthrough_partial` / `c11_helper_footprint`."""
+`c11_uplo_passthrough_partial` / `c11_helper_footprint`.
+Third table family (`solverFields`, `solverCalls`, `configCallsElsewhere`): EVERY call a wrapper method makes on one of its
+third-party solver objects (Eigen::SparseLU / PartialPivLU / LLT / SimplicialLLT / ConjugateGradient / Spectra::BKLDLT members, the
+`Fac&` parameter of SymShiftInvertHelper, local references to them), in source order with the argument text, plus every other use
+of such an object (passed on to a function, ...).  A new configuration call - `setPivotThreshold`, `setTolerance`, `setMaxIterations`,
+a changed `isSymmetric` argument, a second solver member - changes the table and breaks `c11_solver_calls_documented` /
+`c11_no_pivot_threshold_change`."""
 import os, re
 from xlate import XlateError
 import astdump
@@ -42,6 +48,7 @@ def footprint(tu, t):
             classes.append((o.get('name'), o, params))
     uses = []; ucls = []; helper = []
     lu, shifts = _solver_footprint(classes)
+    sfields, scalls, selse = _solver_calls(classes)
     for name, rec, params in classes:
         hp = _header_of(name)
         if hp is None: continue
@@ -98,7 +105,122 @@ def footprint(tu, t):
     s += '-- every method that factorizes with a shift: (class, method, solver kind, the factorization status is tested (info()) and failure is thrown / returned to a caller that throws)\n'
     s += 'def shiftChecks : List (String × String × String × Bool) := [\n' + ',\n'.join(
         f'  ({_lean_str(a)}, {_lean_str(b)}, {_lean_str(c)}, {"true" if d else "false"})' for a, b, c, d in shifts) + ']\n'
+    s += '\n-- every data member of a MatOp wrapper whose type is a third-party solver: (class, member, solver classes named by its type with aliases expanded)\n'
+    s += 'def solverFields : List (String × String × String) := [\n' + ',\n'.join(
+        f'  ({_lean_str(a)}, {_lean_str(b)}, {_lean_str(c)})' for a, b, c in sfields) + ']\n\n'
+    s += '-- every use of a solver object inside a wrapper method, in source order: (class, method, solver object, solver classes, member function called\n'
+    s += '-- ("(use)" when the object is not the receiver of a member call: passed to a function, copied, ...), arguments as written)\n'
+    s += 'def solverCalls : List (String × String × String × String × String × String) := [\n' + ',\n'.join(
+        '  (' + ', '.join(_lean_str(x) for x in e) + ')' for e in scalls) + ']\n\n'
+    s += '-- member calls with the NAME of a solver configuration / factorization function whose receiver is NOT one of the solver objects above: (class, method, receiver, call)\n'
+    s += 'def configCallsElsewhere : List (String × String × String × String) := [' + ', '.join(
+        '(' + ', '.join(_lean_str(x) for x in e) + ')' for e in selse) + ']\n'
     return s
+
+SOLVER_TYPES = ('SparseLU', 'SparseQR', 'PartialPivLU', 'FullPivLU', 'LLT', 'LDLT', 'SimplicialLLT', 'SimplicialLDLT', 'SimplicialCholesky',
+                'ConjugateGradient', 'LeastSquaresConjugateGradient', 'BiCGSTAB', 'HouseholderQR', 'ColPivHouseholderQR', 'FullPivHouseholderQR',
+                'CompleteOrthogonalDecomposition', 'BKLDLT', 'SelfAdjointEigenSolver', 'EigenSolver', 'PardisoLU', 'PardisoLDLT', 'PardisoLLT',
+                'UmfPackLU', 'SuperLU', 'CholmodSupernodalLLT', 'CholmodDecomposition', 'KLU', 'JacobiSVD', 'BDCSVD', 'IncompleteLUT', 'IncompleteCholesky')
+# names of configuration / analysis / factorization member functions of those classes (checked on ANY receiver, see configCallsElsewhere)
+CONFIG_NAMES = ('isSymmetric', 'setPivotThreshold', 'setTolerance', 'setMaxIterations', 'setShift', 'setMode', 'setThreshold', 'setDroptol',
+                'setFillfactor', 'setInitialShift', 'analyzePattern', 'factorize', 'compute', 'preconditioner', 'setSplineParameters', 'iparm',
+                'pardisoParameterArray', 'umfpackControl', 'options', 'cholmod', 'setDefaultThreshold')
+
+def _kinds_of(typ):
+    found = [k for k in SOLVER_TYPES if re.search(r'(?<![A-Za-z_0-9])' + k + r'\s*<', typ)]
+    return '|'.join(sorted(set(found)))
+
+def _class_label(name, rec, src, counter):
+    """SymShiftInvertHelper has three definitions: label them by their specialization arguments as written"""
+    if name != 'SymShiftInvertHelper': return name
+    ms = list(re.finditer(r'class\s+SymShiftInvertHelper\s*(<[^>{;]*>)?\s*\{', src))
+    k = counter.get(name, 0); counter[name] = k + 1
+    if k < len(ms) and ms[k].group(1): return name + re.sub(r'\s+', '', ms[k].group(1))
+    return name
+
+def _solver_calls(classes):
+    fields_out = []; calls = []; elsewhere = []; counter = {}
+    for name, rec, params in classes:
+        hp = _header_of(name)
+        if hp is None: continue
+        src = open(hp).read()
+        label = _class_label(name, rec, src, counter)
+        aliases = {}; fields = {}
+        def collect(n, stack):
+            k = n.get('kind')
+            if k == 'TypeAliasDecl' and not any(a.get('kind') in ('CXXMethodDecl', 'CXXConstructorDecl') for a in stack): aliases[n.get('name')] = n.get('type', {}).get('qualType', '')
+            elif k == 'FieldDecl': fields[n.get('name')] = n.get('type', {}).get('qualType', '')
+        _walk(rec, collect)
+        def expand(t, depth=0):
+            if depth > 6: return t
+            def rep(m):
+                w = m.group(0)
+                return expand(aliases[w], depth + 1) if w in aliases and aliases[w] != w else w
+            return re.sub(r'(?<![:\w])[A-Za-z_]\w*\b', rep, re.sub(r'Spectra::\w+::', '', t))
+        solver_fields = {}
+        for f, t in fields.items():
+            kd = _kinds_of(expand(t))
+            if kd: solver_fields[f] = kd; fields_out.append((label, f, kd))
+        # function bodies (methods, constructors, also inside member function templates)
+        fns = []
+        def find_fns(n, stack):
+            if n.get('kind') in ('CXXMethodDecl', 'CXXConstructorDecl', 'CXXDestructorDecl') and any(c.get('kind') == 'CompoundStmt' for c in n.get('inner', [])):
+                tparams = [c.get('name') for a in stack[-1:] if a.get('kind') == 'FunctionTemplateDecl' for c in a.get('inner', []) if c.get('kind') == 'TemplateTypeParmDecl']
+                fns.append((n, tparams))
+        _walk(rec, find_fns)
+        for fn, tparams in fns:
+            mname = '(constructor)' if fn.get('kind') == 'CXXConstructorDecl' else fn.get('name')
+            recv = dict(solver_fields)          # name -> solver kinds
+            for prm in fn.get('inner', []):
+                if prm.get('kind') != 'ParmVarDecl': continue
+                qt = prm.get('type', {}).get('qualType', '')
+                m = re.match(r'^(\w+) &&?$', qt)
+                if m and m.group(1) in tparams: recv[prm.get('name')] = 'template parameter ' + m.group(1)     # `Fac& fac`
+                elif _kinds_of(expand(qt)): recv[prm.get('name')] = _kinds_of(expand(qt))
+            def root_name(e):
+                """name of the solver object an expression denotes directly (through parentheses / casts / this->), else None"""
+                while e.get('kind') in ('ParenExpr', 'ImplicitCastExpr', 'CXXStaticCastExpr', 'CXXConstCastExpr', 'CStyleCastExpr', 'UnaryOperator') and e.get('inner'): e = e['inner'][-1]
+                if e.get('kind') == 'MemberExpr' and e.get('inner') and e['inner'][0].get('kind') == 'CXXThisExpr': nm = e.get('name')
+                elif e.get('kind') == 'DeclRefExpr': nm = e.get('referencedDecl', {}).get('name')
+                elif e.get('kind') == 'CXXDependentScopeMemberExpr' and e.get('inner') and e['inner'][0].get('kind') == 'CXXThisExpr': nm = e.get('member')
+                else: return None
+                return nm if nm in recv else None
+            handled = set()
+            def visit(n, stack):
+                k = n.get('kind')
+                if k == 'CXXCtorInitializer':
+                    nm = n.get('anyInit', {}).get('name')
+                    if nm in recv:
+                        args = ', '.join(_text(src, a) for a in n.get('inner', []) if 'range' in a)
+                        calls.append((label, mname, nm, recv[nm], '(member initializer)', args))
+                elif k == 'VarDecl':
+                    qt = n.get('type', {}).get('qualType', '')
+                    init = [c for c in n.get('inner', []) if 'kind' in c and c.get('kind') != 'FullComment']
+                    r0 = root_name(init[-1]) if init else None
+                    if _kinds_of(expand(qt)): recv[n.get('name')] = _kinds_of(expand(qt))
+                    elif r0 and ('&' in qt or '*' in qt or 'auto' in qt): recv[n.get('name')] = recv[r0]
+                elif k == 'CallExpr' and n.get('inner') and n['inner'][0].get('kind') in ('CXXDependentScopeMemberExpr', 'MemberExpr'):
+                    cal = n['inner'][0]; member = cal.get('member', cal.get('name'))
+                    base = cal['inner'][0] if cal.get('inner') else None
+                    r0 = root_name(base) if base is not None else None
+                    args = ', '.join(_text(src, a) for a in n['inner'][1:])
+                    if r0:
+                        handled.add(id(base)); h = base
+                        while h.get('inner') and h.get('kind') not in ('MemberExpr', 'DeclRefExpr', 'CXXDependentScopeMemberExpr'): h = h['inner'][-1]; handled.add(id(h))
+                        calls.append((label, mname, r0, recv[r0], member, args))
+                    elif member in CONFIG_NAMES and base is not None:
+                        elsewhere.append((label, mname, _text(src, base), member))
+                if k in ('MemberExpr', 'DeclRefExpr', 'CXXDependentScopeMemberExpr') and id(n) not in handled and root_name(n):
+                    par = next((a for a in reversed(stack) if a.get('kind') not in ('ImplicitCastExpr', 'ParenExpr')), None)
+                    # the receiver of a recorded member call was marked `handled` when its CallExpr was visited (parents come first)
+                    if par is not None and par.get('kind') in ('CXXDependentScopeMemberExpr', 'MemberExpr') and len(stack) >= 2 and stack[-2].get('kind') == 'CallExpr': return
+                    ctx = _text(src, par)[:120] if par is not None and 'range' in par else '?'
+                    calls.append((label, mname, root_name(n), recv[root_name(n)], '(use)', ctx))
+            for c in fn.get('inner', []):
+                if c.get('kind') in ('CompoundStmt', 'CXXCtorInitializer'): _walk(c, visit, (fn,))
+    if not fields_out: raise XlateError('no solver member found in MatOp/')
+    if not calls: raise XlateError('no call on a solver member found in MatOp/')
+    return fields_out, calls, elsewhere
 
 def _solver_footprint(classes):
     """SparseLU instantiations (F19) and info()-checks of every factorizing set_shift / factorize (F20)"""
